@@ -28,7 +28,7 @@ LEVEL_NOTE = (
 TECHNIQUE = (
     "fault enumeration: every evaluation history up to length 4-5 x objectives x field configuration x recording mode x "
     "phenotype text class is replayed through the real tracker and CSVSearchRecorder on an in-memory raw device that logs "
-    "each raw write; the file image is checked after every register() and for EVERY prefix of the raw write log"
+    "each raw write; the file image is checked after every register() and for EVERY prefix of the raw write log; the device has an initial content (the log an earlier run left at the same path) that only a truncating open discards; histories in which the current best individual is presented to the tracker again"
 )
 RULE = (
     "history = sequence of fitness vectors (components distinct per objective) evaluated one by one; case non-trivial = "
